@@ -1,0 +1,29 @@
+//go:build verif
+
+// Package verifhook provides named interleaving and crash points for the
+// external deterministic-simulation harness.
+package verifhook
+
+import "sync/atomic"
+
+type handlerFn func(name string)
+
+var handler atomic.Pointer[handlerFn]
+
+// SetHandler installs (or, with nil, removes) the simulator's handler.
+func SetHandler(h func(name string)) {
+	if h == nil {
+		handler.Store(nil)
+		return
+	}
+	fn := handlerFn(h)
+	handler.Store(&fn)
+}
+
+// At marks a named point between two durable writes or at an interleaving
+// point and hands control to the simulator's handler, if any.
+func At(name string) {
+	if h := handler.Load(); h != nil {
+		(*h)(name)
+	}
+}
